@@ -3,6 +3,7 @@ package rag
 import (
 	"strings"
 	"unicode"
+	"unicode/utf8"
 )
 
 // OverlapStrategy defines how overlap between chunks is computed
@@ -150,18 +151,29 @@ func (og *OverlapGenerator) generateCharacterOverlap(text string) string {
 		return text
 	}
 
-	// Start from target position
+	// Start from target position, moved forward to the start of a character
 	start := len(text) - og.config.Size
+	for start < len(text) && !utf8.RuneStart(text[start]) {
+		start++
+	}
 
 	// If preserving words, find the next word boundary
 	if og.config.PreserveWords {
 		// Move forward to find start of a word
-		for start < len(text) && !unicode.IsSpace(rune(text[start])) {
-			start++
+		for start < len(text) {
+			r, size := utf8.DecodeRuneInString(text[start:])
+			if unicode.IsSpace(r) {
+				break
+			}
+			start += size
 		}
 		// Skip whitespace
-		for start < len(text) && unicode.IsSpace(rune(text[start])) {
-			start++
+		for start < len(text) {
+			r, size := utf8.DecodeRuneInString(text[start:])
+			if !unicode.IsSpace(r) {
+				break
+			}
+			start += size
 		}
 	}
 
